@@ -461,9 +461,23 @@ def _dump_size(f, d):
         d["maxItems"] = f.maxItems
 
 
-def dump_class(cls, ctx=None, order="signature"):
+def dump_class(cls, ctx=None, order=None):
     """real Structure class -> model class declaration (JSON)"""
     ctx = ctx or Ctx()
+    if order is None:
+        order = getattr(ctx, "order", "signature")
+    prev_order = getattr(ctx, "order", None)
+    ctx.order = order      # nested classes are dumped in the same order
+    try:
+        return _dump_class(cls, ctx, order)
+    finally:
+        if prev_order is None:
+            del ctx.order
+        else:
+            ctx.order = prev_order
+
+
+def _dump_class(cls, ctx, order):
     fields = cls.get_all_fields_by_name()
     def_order = list(fields)
     if order == "signature":
